@@ -111,6 +111,11 @@ def stream_rename(ctx):
                 if vr['x'] != exp_x:
                     ctx.violation('C03/rename/dict-to-list', 'beta_values_dict_to_list does not follow the reported name order',
                                   {**light, 'rho': rho}, exp_x, vr['x'])
+            if 'iter_file' in vr and 'x' in vr:
+                exp_file = {n: v for n, v in zip(vr['names'], vr['x'])}
+                if vr['iter_file'] != exp_file:
+                    ctx.violation('C03/rename/iteration-file-names', 'the saved-iteration file stores a value under another parameter\'s name',
+                                  {**light, 'rho': rho}, exp_file, vr['iter_file'])
             if 'after_change' in vr:
                 exp_after = {n: env_beta[inv[n]] for n in vr['names']}
                 if vr['after_change'] != exp_after:
